@@ -515,10 +515,8 @@ func (g *gen) genSpec(id int) {
 		if k > 0 && r.Bool() {
 			k--
 		}
-	case c < 43:
+	case c < 44:
 		k = (1 << 63) / sp.Epoch
-	case c < 45:
-		k = (^uint64(0) - 6) / sp.Epoch
 	default:
 		k = uint64(r.Intn(2000000))
 	}
@@ -652,7 +650,8 @@ func (g *gen) genStep(bt *uint64, idx int) Step {
 	if isEpoch {
 		extraVals = g.pickSet(vals)
 	}
-	ph := head.Hash()
+	var ph common.Hash
+	hlib.Catch(func() { ph = head.Hash() }) // panics for a created-unvalidated head with an over-long bloom
 	h := bsctypes.Header{
 		ParentHash: ph[:], UncleHash: emptyUncle[:], Root: r.Bytes(32), TxHash: r.Bytes(32), ReceiptHash: r.Bytes(32),
 		Bloom: make([]byte, 256), Height: clienttypes.NewHeight(head.Height.RevisionNumber, n), GasLimit: gl,
